@@ -13,6 +13,7 @@ import (
 	g "github.com/bobertlo/gmars"
 
 	"verif/mc/hx"
+	"verif/mc/sched"
 )
 
 type Ctx struct {
@@ -120,13 +121,13 @@ func RunJob(kind int, cfg g.SimulatorConfig, shared *g.WarriorData) (res string)
 
 // Scenario is a set of jobs run concurrently.
 type Scenario struct {
-	Jobs    []int    `json:"jobs"`
-	Mode    string   `json:"mode"` // fine | perm | race | iso
-	Prefix  []int    `json:"choices,omitempty"`
-	Src     string   `json:"src,omitempty"`
-	Note    string   `json:"note,omitempty"`
-	Iso     *IsoCase `json:"iso,omitempty"`
-	Threads int      `json:"threads,omitempty"`
+	Jobs    []int         `json:"jobs"`
+	Mode    string        `json:"mode"` // fine | perm | race | iso
+	Prefix  sched.Choices `json:"choices,omitempty"`
+	Src     string        `json:"src,omitempty"`
+	Note    string        `json:"note,omitempty"`
+	Iso     *IsoCase      `json:"iso,omitempty"`
+	Threads int           `json:"threads,omitempty"`
 }
 
 func (s *Scenario) witness() string {
